@@ -77,7 +77,7 @@ structure DSt where
   silentFinNow : Int := 0      -- time of the last helper section that found its checkable gone from pending (no notify_all)
   lastSchedNow : Int := 0      -- time of the last scheduler section
   noWakeups : Nat := 0
-  noWakeupReported : Bool := false
+  noWakeupCand : Option (Nat × Nat × Int × Int) := none   -- first candidate of the current case
   caseReported : Nat := 0      -- MISMATCH lines printed for the current case (capped)
   caseReportedSpec : Nat := 0  -- SPECFAIL lines printed for the current case (capped)
 
@@ -245,14 +245,14 @@ def handleSched (d : DSt) (n : Nat) (kind : String) (c : Nat) (args obs : List S
       -- how long after it became due (or was re-keyed into the past) the entry was taken; includes waiting for a slot
       let lateness := now - (d.cs.getD c {}).dueFrom
       if !isPick then d := setM d c fun cs => { cs with dueFrom := max key now }
-      -- F-C04a (real-time liveness, measured): a helper finished for a checkable that had left the pending set, so
-      -- ExecuteCheckHelper:263-270 did not notify the scheduler, which slept on (up to 0.5 s, :121-126) although this
-      -- entry was due and a slot was free
+      -- real-time liveness (measured, partial; F-C04a, fixed by 31ee201): a helper finished for a checkable that had left the
+      -- pending set; the slot it frees must wake the scheduler (ExecuteCheckHelper notifies unconditionally), so an entry that
+      -- was due all the time must not wait for the scheduler's 0.5 s poll (:121-126).  Candidate here, verdict at the `M` line
+      -- (ignored when the process itself was starved of CPU).
       if d.silentFinNow > d.lastSchedNow && now - d.silentFinNow ≥ 400000 && lateness ≥ 400000 then
         d := { d with noWakeups := d.noWakeups + 1 }
-        if !d.noWakeupReported then
-          IO.println s!"SPECFAIL line={n} case={d.caseNo} clause=liveness_no_wakeup_after_silent_finish cid={c} late_us={lateness} since_finish_us={now - d.silentFinNow}"
-          d := { d with noWakeupReported := true, specfails := d.specfails + 1 }
+        if d.noWakeupCand.isNone then
+          d := { d with noWakeupCand := some (n, c, lateness, now - d.silentFinNow) }
       d := { d with lastSchedNow := now }
       let modelSkips := Chk.skips (d.cs.getD c {}).m.forced true cst.enabled true
       if modelSkips == isPick then
@@ -342,7 +342,8 @@ def handle (d : DSt) (n : Nat) (line : String) : IO DSt := do
   | "C" :: k :: "sched" :: rest =>
     let d := closeCase d
     let d := { d with caseNo := (parseNat? k).getD (d.caseNo + 1), cases := d.cases + 1, caseReported := 0, caseReportedSpec := 0,
-                      caseBusy := 0, caseForced := 0, caseSkips := 0 }
+                      caseBusy := 0, caseForced := 0, caseSkips := 0, noWakeupCand := none,
+                      silentFinNow := 0, lastSchedNow := 0 }
     match (kvGet rest "max") >>= parseInt?, (kvGet rest "n") >>= parseNat?, (kvGet rest "pool") >>= parseNat?,
           (kvGet rest "bound_ms") >>= parseInt? with
     | some mx, some nn, some pool, some bound =>
@@ -395,6 +396,14 @@ def handle (d : DSt) (n : Nat) (line : String) : IO DSt := do
       d ← mismatch d n "counter-at-quiescence" 0 s!"{geti "counter_end"}" s!"{d.counter}"
     let overdue := geti "overdue_max_us"
     let canary := geti "canary_max_us"
+    match d.noWakeupCand with
+    | some (ln, c, late, since) =>
+      if canary < 200000 then
+        if d.caseReportedSpec < 5 then
+          IO.println s!"SPECFAIL line={ln} case={d.caseNo} clause=liveness_no_wakeup_when_slot_freed cid={c} late_us={late} since_finish_us={since}"
+        d := { d with specfails := d.specfails + 1, caseReportedSpec := d.caseReportedSpec + 1 }
+      else d := { d with livenessInconclusive := d.livenessInconclusive + 1 }
+    | none => pure ()
     if overdue > d.boundUs then
       if canary < 200000 then d ← specName d n 0 "liveness_overdue"
       else d := { d with livenessInconclusive := d.livenessInconclusive + 1 }
@@ -431,4 +440,4 @@ def main : IO Unit := do
     s!"ops={d.ops} forces={d.forces} force_ambiguous={d.forceAmb} quiescent={d.quiescent} " ++
     s!"lat_lt1ms={d.lat1ms} lat_lt10ms={d.lat10ms} lat_lt100ms={d.lat100ms} lat_lt1s={d.lat1s} lat_ge1s={d.latMore} lat_max_us={d.latMaxUs} " ++
     s!"overdue_max_us={d.overdueMaxUs} canary_max_us={d.canaryMaxUs} max_parallel={d.maxParallel} " ++
-    s!"liveness_inconclusive={d.livenessInconclusive} no_wakeup_after_silent_finish={d.noWakeups} nontrivial={d.nontrivial} mismatches={d.mismatches} specfails={d.specfails}")
+    s!"liveness_inconclusive={d.livenessInconclusive} no_wakeup_candidates={d.noWakeups} nontrivial={d.nontrivial} mismatches={d.mismatches} specfails={d.specfails}")
